@@ -295,8 +295,8 @@ func init() {
 			if qf := r.Need("keeper.Keeper.queueRedelegation"); qf != nil {
 				qk, qa := FuncKey(qf), e.FA(qf)
 				lits := Complits(qf, "types.Redelegation")
-				if len(lits) < 2 {
-					r.Bad(qk, "queue entry literal", fmt.Sprintf("expected a Redelegation literal on both branches (new bucket / append), found %d", len(lits)), nil, e.Pos(qf.Pos()))
+				if len(lits) < 1 {
+					r.Bad(qk, "queue entry literal", fmt.Sprintf("expected a Redelegation value built from the parameters, found %d", len(lits)), nil, e.Pos(qf.Pos()))
 				}
 				for i, a := range lits {
 					f := complitFields(qa, a)
